@@ -46,7 +46,7 @@ structure MsgInfo where
   v11 : Bool := true          -- version == HTTP/1.1
   vge11 : Bool := true        -- version >= HTTP/1.1
   noStream : Bool := false    -- HEAD / CONNECT: the test handler does not stream a body
-  expect : Nat := 0           -- 0 no Expect header, 1 `100-continue`, 2 anything else
+  expect : Nat := 0           -- 0 no Expect header, 1 `100-continue`, 2 anything else, 3 anything else that is not UTF-8 encodable
   chunks : Nat := 0           -- StreamReader.feed_data calls on the new payload within the same parser call
   eof : Bool := false
   exc : Bool := false
@@ -86,7 +86,7 @@ deriving Repr, DecidableEq
 inductive HOp where
   | sleep (ms : Nat)
   | read               -- await request.read()
-  | prepare            -- StreamResponse().prepare(request) + write(chunk)
+  | prepare (chunk : Bool)   -- StreamResponse().prepare(request) [+ write(chunk)]: the head is on the wire either way
   | write              -- stream.write(chunk)
   | fin (f : Fin)
 deriving Repr, DecidableEq
@@ -139,6 +139,7 @@ inductive HRes where
   | resp (keepAlive : Bool) (reset : Bool)
   | connErr        -- ConnectionError left `_handle_request`
   | cancelled      -- CancelledError left `_handle_request`
+  | crashed        -- another exception left `_handle_request` (building the error response itself failed)
 deriving Repr, DecidableEq
 
 inductive HPc where
@@ -444,13 +445,14 @@ def runProg : Nat → St → Prog → St
       else if p.eof then runProg fuel s rest
       else if !s.tPresent then handleError s c 500
       else { setP s c.idx { p with waiter := .handler } with hpc := .reading rest }
-    | .prepare :: rest =>
+    | .prepare withChunk :: rest =>
       if c.info.noStream then runProg fuel s rest else
       let s := updCur s (fun c => { c with outStarted := true })
       if !writable s then finishH s .connErr    -- reset error → handle_error → "sent already"
       else
         let cd := !c.info.vge11
-        let s := emit (emit s (.hdr c.idx 200 cd)) (.chunk c.idx)
+        let s := emit s (.hdr c.idx 200 cd)
+        let s := if withChunk then emit s (.chunk c.idx) else s
         -- `_prepare_headers` clears only its *local* keep_alive for a close-delimited body: `resp.keep_alive` stays
         let s := updCur s (fun c => { c with streamOpen := true, streamKa := !c.info.shouldClose })
         runProg fuel s rest
@@ -485,6 +487,9 @@ def handlerStart (fuel : Nat) (s : St) (m : QMsg) : St :=
         let s := emit s (.interim m.idx)
         let prog := s.progs.getD s.invocations [.fin .ok]
         runProg fuel { s with invocations := s.invocations + 1 } prog
+    else if m.info.expect == 3 then
+      -- `Response(text=exc.text)` for the 417 raises UnicodeEncodeError inside `except HTTPException`
+      finishH s .crashed
     else finishFresh s c 417 (!m.info.shouldClose)
   else
     let prog := s.progs.getD s.invocations [.fin .ok]
@@ -536,6 +541,7 @@ def startRun : Nat → St → SCont → St
       match r with
       | .connErr => startRun fuel s .epilogue
       | .cancelled => { forceClose s with spc := .done, cur := none }
+      | .crashed => startRun fuel (forceClose s) .decide   -- `except Exception: log; force_close()`
       | .resp ka reset =>
         if reset then startRun fuel s .epilogue else
         let s := { s with keepalive := ka }
